@@ -308,7 +308,7 @@ CHECKS["C05"] = {
 _INTER_SPACE = ("programs main + f(x)->y (+ g(y)->x, + h(v,i)->(z,w) when referenced) built as real cfgs with function declarations and callsites in a real "
                 "call_graph; variable names are shared between all functions on purpose (actuals, formals and outputs cross: y:=g(x), x:=f(y), "
                 "x:=f(x), (y,x):=h(x,y), (v,i):=h(i,v)). main = [m1][call1][m2][call2; assert] over 4 blocks, optionally with a loop around the first "
-                "call (repeated calls with growing contexts); f = straight-line or two-armed (x<=0 / x>=1) body over 7 (11 thorough) statements incl. "
+                "call (repeated calls with growing contexts), plus the multi-call family main = x:=a;y:=f(x); x:=b;y:=f(x); x:=c;y:=f(x); x:=d;y:=f(x) for every (a,b,c,d) in {-1,0,1}^4 with a call-free two-armed f (pairwise disjoint contexts that exceed the bound on calling contexts); f = straight-line or two-armed (x<=0 / x>=1) body over 7 (11 thorough) statements incl. "
                 "direct recursion y:=f(z), the call y:=g(x) and the call (z,y):=h(x,x); g from 4 (6) bodies incl. direct recursion with a base case and mutual recursion "
                 "with f; h from 2 (4) bodies. Every combination is enumerated. Oracle: tabulation of the concrete call semantics over the value box "
                 "{-1,0,1} (values clipped to |v|<=4): a context is (function, frame at entry); contexts are explored to a least fixpoint, giving every "
